@@ -625,6 +625,7 @@ func (r *collection) addService(service any, lifetime Lifetime, opts ...AddOptio
 	// Handle As option - register under interface types
 	if len(options.As) > 0 {
 		// When As is specified, register the service under each interface type
+		aliases := make([]*Descriptor, 0, len(options.As))
 		for _, iface := range options.As {
 			interfaceType := reflect.TypeOf(iface).Elem()
 
@@ -664,6 +665,15 @@ func (r *collection) addService(service any, lifetime Lifetime, opts ...AddOptio
 					Operation:   "register as interface",
 					Cause:       err,
 				}
+			}
+
+			aliases = append(aliases, interfaceDescriptor)
+		}
+
+		// All interfaces of one registration share the instance the constructor produces
+		if len(aliases) > 1 {
+			for _, alias := range aliases {
+				alias.aliases = aliases
 			}
 		}
 
